@@ -3,6 +3,7 @@ CONSTANT Configs <- MCConfigs
 INVARIANT TypeOK
 INVARIANT DiskIsMemAtBoundary
 INVARIANT DiskIsPrefix
+INVARIANT DiskIsCommitted
 INVARIANT NoWriteWhenDisabled
 INVARIANT FinalStructure
 PROPERTY FileOnlyGrows
